@@ -389,7 +389,9 @@ def _rename_subcircuit_gates(
     i = 0
     for node in subcircuit.top_sort(inverse=True):
         if node.label not in inputs_mapping and node.label not in outputs_mapping:
-            subcircuit.rename_gate(node.label, labels_to_remove[i])
+            # when the removed labels run out, the unique temporary label is kept
+            if i < len(labels_to_remove):
+                subcircuit.rename_gate(node.label, labels_to_remove[i])
             i += 1
 
     return subcircuit
